@@ -6,8 +6,8 @@ patch=$1; tier=$2; shift 2
 cd /repo || exit 2
 if [ -n "$(git status --porcelain)" ]; then echo "/repo not clean"; exit 2; fi
 if ! git apply --check "$patch" 2>/dev/null; then
-  if ! git apply --3way --check "$patch" 2>/dev/null; then echo "PATCH-DOES-NOT-APPLY"; exit 3; fi
-  git apply --3way "$patch" >/dev/null 2>&1 || { git checkout -- . ; git reset -q; echo "PATCH-DOES-NOT-APPLY"; exit 3; }
+  if ! git apply --3way --check "$patch" 2>/dev/null; then git reset -q --hard HEAD; echo "PATCH-DOES-NOT-APPLY"; exit 3; fi
+  git apply --3way "$patch" >/dev/null 2>&1 || { git reset -q --hard HEAD; echo "PATCH-DOES-NOT-APPLY"; exit 3; }
   git reset -q
 else
   git apply "$patch"
